@@ -25,6 +25,11 @@ INFO = {
             "Complete system-call traces of every publishing path of the stacked cache are judged by DurableFirst (per-inode dirty/fsync/chmod bookkeeping "
             "in the trace specification) and Immutable; every fsync failing in turn must never be followed by publication.",
             TV + " incl. fsync fault injection"),
+    "C04": ("model_checking", "§7 C04",
+            "Every recorded history of concurrent set/put/get/touch/ensure on one key (DFS over system-call decision points) is searched for a linearization "
+            "against Register.tla by TLC (ensure = composite get;put;get); the step form (PutNeverReplaces) is evaluated on every step; design level: the "
+            "refinement properties StepRegister / StepGetLin of Kismet.tla under every interleaving; TraceKismet: the executions are paths of the model.",
+            "TLC linearizability search (TraceLin/Register.tla) over ptrace-explored schedules + TLC refinement check of Kismet.tla"),
     "C05": ("model_checking", "§7 C05",
             "Kismet.tla's InvNoErr under every interleaving (design level) and Props!NoErr on real executions with capacity-1 caches, missing "
             "directories and an adversary deleting published files at every scheduler step.",
@@ -37,6 +42,28 @@ INFO = {
             "SecondChance.tla's declarative relation PlanOK is proved (TLC, exhaustive n<=4) to accept exactly the outcomes of the textbook queue over all tie "
             "orders; lifted to directory snapshots (PruneOK) it judges the before/after state of real maintenance on enumerated populations.",
             "TLC exhaustive check of SecondChance.tla + TLC judgement (PruneOK) of enumerated on-disk populations"),
+    "C08": ("model_checking", "§7 C08",
+            "SecondChance.tla: Plan (the transcribed planner) = Clock (textbook queue) on the stably sorted input and PlanOK(Plan) for every input of the exhaustive "
+            "domain; PlanOK accepts exactly the clock's outcomes over all tie orders (MCscExact); the real Update::new is run on the same exhaustive domain and on "
+            "large/extreme inputs and each outcome is judged by PlanOK in TLC.",
+            "TLC exhaustive check of SecondChance.tla + TLC judgement of the real planner's outcomes on an exhaustive input domain"),
+    "C09": ("model_checking", "§7 C09",
+            "Atime.tla: the (mtime, atime) encoding under every operation sequence, policy {strict, relatime, noatime}, granularity and passage of time (TLC); the real "
+            "library is run under tracer emulations of those policies/granularities and ReadMarks / FreshOnWrite are evaluated by TLC after every operation.",
+            "TLC model checking of Atime.tla + " + TV + " under emulated atime policies and timestamp granularities"),
+    "C10": ("model_checking", "§7 C10",
+            "Trigger.tla: for every period and every draw sequence of a 5/6-bit word no max(1,period) events pass without a fire (TLC); the real trigger is driven "
+            "with scripted adversarial draws (hook) and real plain caches of capacity 0..200 and huge are written 3P+5 times: TriggerWindow, MaintWindow, "
+            "MaintBeforePublish, CountBound judged by TraceTrigger.tla.",
+            "TLC model checking of Trigger.tla + TLC judgement (TraceTrigger) of scripted-draw executions"),
+    "C11": ("model_checking", "§7 C11",
+            "Seeded sequential histories through 1-3 independent handles on plain/sharded/stacked caches; after every operation TLC evaluates SeqMapOK (abstract map), "
+            "OneCopy, UnexplainedLoss, SrcConsumed and PruneOK (every maintenance is a Second Chance outcome at the directory's capacity).",
+            TV + " of seeded sequential histories (abstract map + PruneOK)"),
+    "C12": ("model_checking", "§7 C12",
+            "ShardMap.tla computes the two shard indices and directory names in base-256 limb arithmetic (constants re-derived from SHA-256 by a generator); for every "
+            "vector the probe order of a lookup, the landing shard of a put and read-backs by other handles are judged by TLC (TraceShard).",
+            "TLC evaluation of ShardMap.tla on recorded probe/landing paths (exhaustive over the generated vector set)"),
     "C13": ("model_checking", "§7 C13",
             "Stack.tla gives the expected result / hit kind / post state for every point of the configuration matrix (laws checked by TLC over the whole domain); "
             "each point is built on disk and the real outcome is judged by Stack!ObservedOK.",
@@ -60,6 +87,10 @@ INFO = {
             "For every library system call of every scenario and every plausible errno the call is skipped and failed (ptrace); FaultOK / FollowUpOK / NoLeak / "
             "DirValid / ReadsLastSet evaluated by TLC; the operation and a lookup are re-issued by a fresh process.",
             "fault enumeration by ptrace + " + TV),
+    "C20": ("model_checking", "§7 C20",
+            "The same operations are issued against directories pre-filled with 0/10/100/2000 entries; TraceRes.tla (TLC) demands identical per-operation call-count "
+            "vectors, at most 2 (3 with a checker) descriptors open at once, no residue (cross-checked with /proc/self/fd), <= 2 open attempts per directory, no locks.",
+            "TLC judgement (TraceRes.tla) of ptrace-recorded per-operation system-call traces across directory sizes"),
     "C19": ("model_checking", "§7 C19",
             "HandleModeOK (read-only, offset 0), Mode0444, ReadOnlyFirst evaluated by TLC on the stacked-cache matrix under umasks 000/022/077 with consuming judges and checkers.",
             TV + " over the stacked-cache matrix x umask"),
